@@ -198,7 +198,7 @@ def avg_seq_case(seed):
 
 
 def run(ctx):
-    proof = core.prove(MODULES, leanchecker=ctx.thorough)
+    proof = core.prove(MODULES, extra_targets=["AdaptiveProofs.Examples.L1D"], leanchecker=ctx.thorough)
     n1 = ctx.n(160, 3000)
     args = [(ctx.rng.randrange(1 << 30), 1) for _ in range(n1)] + [(ctx.rng.randrange(1 << 30), 2) for _ in range(n1 // 4)]
     results = core.pmap(l1d_case, args)
